@@ -421,6 +421,8 @@ class SeqExec(HeapExec):
             else:
                 spec = self.reg.functions[fv.t]
                 yield from self.apply_named(spec, pos, kw, p, "call:%s" % fv.t)
+        elif fv.k == "localfn":
+            yield from self.call_local(fv.t, pos, kw, p, list(e.args))
         elif fv.k == "helper":
             recv = (fv.x or {}).get("self") if isinstance(fv.x, dict) else None
             argnodes = ([None] if recv is not None else []) + list(e.args)
